@@ -677,6 +677,10 @@ def c18_extra(tier, seed, outdir, broken, violations, findings_seen):
     stats, failures = cli.determinism_exploration(60 if tier == "quick" else 1500, seed)
     for f in failures[:10]:
         violations.append(dict(f, property="C18", kind="output differs between two fresh processes"))
+    lstats, lfail = cli.long_fixpoint_check()
+    stats.update(lstats)
+    for f in lfail:
+        violations.append(dict(f, property="C18", kind="fixpoint simplification of a long chain does not end in the normal form / a fixpoint"))
     ostats, ofail = cli.simplify_order_check(seed)
     stats.update(ostats)
     for f in ofail[:5]:
@@ -820,7 +824,7 @@ PROPS = {
                       "sufficed, no usize overflow, and with simplification or mu on, H subset T everywhere; strong_refutes / strongly_equivalent_iff additionally assume that rename_conflicting_symbols is the identity (NoSymbolConflict). "
                       "strong_refutes_with_renaming removes that assumption: since fix 611037e a propositional predicate whose name is also a symbolic constant is renamed to a free name (clashing_predicates_get_free_names) and constants keep their names and order "
                       "(before, the constant was renamed c__s and comparisons between constants could change: the literal property was false, witness rename_keeps_symbols_witness); a renamed problem is refuted by J iff the original is refuted by J read through the renaming (sat_renameProps). "
-                      "The check also verifies on every generated task that the constants of the emitted problems are constants of the programs.",
+                      "strong_equivalence_sound_no_side_condition - for a universal task, if no emitted problem has a countermodel the programs have the same HT models (no hypothesis on names; reading_surjective, direction_countermodel); strong_equivalence_complete_with_renaming - the converse through the readings. The check also verifies on every generated task that the constants of the emitted problems are constants of the programs.",
         "level_note": PROOF_NOTE,
         "technique": "Lean 4 proof by composition (tau*/mu correctness, both portfolios, gamma_correct, decomposition theorems, transition-axiom semantics, semantics of the propositional renaming) + end-to-end differential correspondence",
         "design_ref": "DESIGN.md 6/C03",
